@@ -24,34 +24,44 @@ fn keys(suite: &str, k: u8) -> (awslc::seal::Application, awslc::open::Applicati
     (awslc::seal::Application::new(&key, iv, alg), awslc::open::Application::new(&key, iv, alg))
 }
 
-struct StreamFields { pn: u64, offset: u64, payload: Vec<u8>, fin: bool, app_header: Vec<u8>, queue: Option<u64>, next_ctl: u64 }
+struct StreamFields { pn: u64, offset: u64, payload: Vec<u8>, fin: bool, app_header: Vec<u8>, control: Vec<u8>, queue: Option<u64>, next_ctl: u64 }
 
 fn encode_stream(f: &StreamFields, sealer: &awslc::seal::Application, creds: &Credentials) -> Vec<u8> {
-    let mut buf = vec![0u8; f.payload.len() + f.app_header.len() + 200];
+    let mut buf = vec![0u8; f.payload.len() + f.app_header.len() + f.control.len() + 200];
     let enc = EncoderBuffer::new(&mut buf);
     let mut payload = &f.payload[..];
     let mut inc = Incremental::new(vi(f.offset));
     let mut reader = inc.with_storage(&mut payload, f.fin).unwrap();
     let mut hdr = &f.app_header[..];
     let n = stream::encoder::encode(enc, f.queue.map(vi), stream::Id::default().reliable(), vi(f.pn), vi(f.next_ctl), vi(f.app_header.len() as u64),
-                                    &mut hdr, VarInt::ZERO, &(), &mut reader, sealer, creds);
+                                    &mut hdr, vi(f.control.len() as u64), &&f.control[..], &mut reader, sealer, creds);
     buf.truncate(n);
     buf
 }
 
 /// (decoded, decrypted, fields equal to what was encoded)
-fn open_stream(bytes: &[u8], opener: &awslc::open::Application, f: &StreamFields, creds: &Credentials) -> (bool, bool, bool) {
+fn open_stream(bytes: &[u8], opener: &awslc::open::Application, f: &StreamFields, creds: &Credentials, genuine: bool) -> (bool, bool, bool) {
     use crypto::open::Application as _;
     let mut raw = bytes.to_vec();
     let tag_len = opener.tag_len();
     let Ok((mut p, _rest)) = stream::decoder::Packet::decode(DecoderBufferMut::new(&mut raw), (), tag_len) else { return (false, false, false) };
     let same = p.packet_number() == vi(f.pn) && p.stream_offset() == vi(f.offset) && p.is_fin() == f.fin && p.application_header() == &f.app_header[..]
         && p.source_queue_id() == f.queue.map(vi) && p.credentials() == creds && p.payload().len() == f.payload.len()
-        && p.next_expected_control_packet() == vi(f.next_ctl);
+        && p.next_expected_control_packet() == vi(f.next_ctl) && p.control_data() == &f.control[..];
     let control = crypto::open::control::stream::Reliable::default();
     let ok = p.decrypt_in_place(opener, &control).is_ok();
     let same = same && (!ok || p.payload() == &f.payload[..]);
-    (true, ok, same)
+    // the copying path (decrypt into a separate buffer) must come to the same verdict
+    let mut raw2 = bytes.to_vec();
+    let (ok2, same2) = match stream::decoder::Packet::decode(DecoderBufferMut::new(&mut raw2), (), tag_len) {
+        Ok((mut p2, _)) => {
+            let mut outb = vec![0u8; p2.payload().len()];
+            let ok2 = p2.decrypt(opener, &control, crypto::UninitSlice::new(&mut outb)).is_ok();
+            (ok2, !ok2 || outb == f.payload)
+        }
+        Err(_) => (false, true),
+    };
+    (true, accepted(genuine, ok, ok2), same && same2)
 }
 
 struct DgFields { pn: Option<u64>, payload: Vec<u8>, app_header: Vec<u8>, port: u16, next_ctl: Option<u64> }
@@ -67,7 +77,7 @@ fn encode_dg(f: &DgFields, sealer: &awslc::seal::Application, creds: &Credential
     buf
 }
 
-fn open_dg(bytes: &[u8], opener: &awslc::open::Application, f: &DgFields, creds: &Credentials) -> (bool, bool, bool) {
+fn open_dg(bytes: &[u8], opener: &awslc::open::Application, f: &DgFields, creds: &Credentials, genuine: bool) -> (bool, bool, bool) {
     use crypto::open::Application as _;
     let mut raw = bytes.to_vec();
     let tag_len = opener.tag_len();
@@ -79,10 +89,18 @@ fn open_dg(bytes: &[u8], opener: &awslc::open::Application, f: &DgFields, creds:
     let header = p.header().to_vec();
     let tag = p.auth_tag().to_vec();
     let mut tag2 = tag.clone();
+    let cipher = p.payload().to_vec();
     let ok = opener.decrypt_in_place(key_phase, nonce, &header, p.payload_mut(), &mut tag2).is_ok();
     let same = same && (!ok || p.payload() == &f.payload[..]);
-    (true, ok, same)
+    // the copying path must come to the same verdict
+    let mut outb = vec![0u8; cipher.len()];
+    let ok2 = opener.decrypt(key_phase, nonce, &header, &cipher, &tag, crypto::UninitSlice::new(&mut outb)).is_ok();
+    let same = same && (!ok2 || outb == f.payload);
+    (true, accepted(genuine, ok, ok2), same)
 }
+
+/// a genuine packet counts as accepted when every decryption path accepts it, a modified one when any path does
+fn accepted(genuine: bool, in_place: bool, copying: bool) -> bool { if genuine { in_place && copying } else { in_place || copying } }
 
 fn region(i: usize, len: usize, tag_len: usize, payload_len: usize) -> &'static str {
     if i >= len - tag_len { "auth_tag" } else if i >= len - tag_len - payload_len { "payload" } else if i == 0 { "tag" } else if i <= 24 { "credentials" } else { "header" }
@@ -107,38 +125,41 @@ pub fn record(args: &[String]) -> Value {
         let payload: Vec<u8> = (0..plen).map(|i| (i as u8) ^ 0x3c).collect();
         let hlen = [0usize, 0, 1, 8, 40][rng.random_range(0..5)];
         let app_header: Vec<u8> = (0..hlen).map(|i| i as u8).collect();
+        // control data travelling in a stream packet next to an application header (opaque bytes for the codec)
+        let clen = [0usize, 0, 1, 5, 33][rng.random_range(0..5)];
+        let control: Vec<u8> = (0..clen).map(|i| 0xa0 ^ i as u8).collect();
         let big = |rng: &mut StdRng| [0u64, 1, 63, 64, 16383, 16384, (1 << 30) - 1, 1 << 30, (1 << 40) + 5][rng.random_range(0..9)];
         for kind in ["stream", "datagram"] {
             let r = std::panic::catch_unwind(std::panic::AssertUnwindSafe(|| {
                 let mut evs: Vec<Value> = vec![];
-                let (bytes, open): (Vec<u8>, Box<dyn Fn(&[u8], &awslc::open::Application) -> (bool, bool, bool)>) = if kind == "stream" {
-                    let f = StreamFields { pn: big(&mut rng), offset: big(&mut rng), payload: payload.clone(), fin: rng.random_bool(0.3), app_header: app_header.clone(),
+                let (bytes, open): (Vec<u8>, Box<dyn Fn(&[u8], &awslc::open::Application, bool) -> (bool, bool, bool)>) = if kind == "stream" {
+                    let f = StreamFields { pn: big(&mut rng), offset: big(&mut rng), payload: payload.clone(), fin: rng.random_bool(0.3), app_header: app_header.clone(), control: control.clone(),
                                            queue: if rng.random_bool(0.5) { Some(rng.random_range(0..1000)) } else { None }, next_ctl: big(&mut rng) };
                     let bytes = encode_stream(&f, &sealer, &creds);
-                    (bytes, Box::new(move |b, o| open_stream(b, o, &f, &creds)))
+                    (bytes, Box::new(move |b, o, g| open_stream(b, o, &f, &creds, g)))
                 } else {
                     let f = DgFields { pn: if rng.random_bool(0.7) { Some(big(&mut rng)) } else { None }, payload: payload.clone(), app_header: app_header.clone(),
                                        port: rng.random(), next_ctl: if rng.random_bool(0.5) { Some(big(&mut rng)) } else { None } };
                     let f = DgFields { next_ctl: if f.pn.is_some() { f.next_ctl } else { None }, ..f };
                     let bytes = encode_dg(&f, &sealer, &creds);
-                    (bytes, Box::new(move |b, o| open_dg(b, o, &f, &creds)))
+                    (bytes, Box::new(move |b, o, g| open_dg(b, o, &f, &creds, g)))
                 };
                 let len = bytes.len();
-                let (d, a, same) = open(&bytes, &opener);
+                let (d, a, same) = open(&bytes, &opener, true);
                 evs.push(json!({"ev": "data", "kind": kind, "suite": suite, "len": len, "mutated": false, "region": "none", "decoded": d, "authentic": a, "roundtrip": same}));
-                let (d, a, _) = open(&bytes, &wrong_opener);
+                let (d, a, _) = open(&bytes, &wrong_opener, false);
                 evs.push(json!({"ev": "data", "kind": kind, "suite": suite, "len": len, "mutated": true, "region": "key", "decoded": d, "authentic": a, "roundtrip": true}));
                 // every byte (long packets: every byte of the first 120 and last 40, sampled in between), one random bit or byte value each
                 let positions: Vec<usize> = if len <= 200 { (0..len).collect() } else { (0..120).chain((120..len - 40).step_by(37)).chain(len - 40..len).collect() };
                 for i in positions {
                     let mut m = bytes.clone();
                     if rng.random_bool(0.7) { m[i] ^= 1 << rng.random_range(0..8); } else { let old = m[i]; while m[i] == old { m[i] = rng.random(); } }
-                    let (d, a, _) = open(&m, &opener);
+                    let (d, a, _) = open(&m, &opener, false);
                     evs.push(json!({"ev": "data", "kind": kind, "suite": suite, "len": len, "mutated": true, "region": region(i, len, 16, plen), "at": i, "decoded": d, "authentic": a, "roundtrip": true}));
                 }
                 // truncation and extension
                 for cut in [1usize, 16, len / 2] {
-                    if cut < len { let (d, a, _) = open(&bytes[..len - cut], &opener); evs.push(json!({"ev": "data", "kind": kind, "suite": suite, "len": len, "mutated": true, "region": "truncated", "decoded": d, "authentic": a, "roundtrip": true})); }
+                    if cut < len { let (d, a, _) = open(&bytes[..len - cut], &opener, false); evs.push(json!({"ev": "data", "kind": kind, "suite": suite, "len": len, "mutated": true, "region": "truncated", "decoded": d, "authentic": a, "roundtrip": true})); }
                 }
                 evs
             }));
@@ -175,6 +196,7 @@ pub fn control(args: &[String]) -> Value {
     let ctl = UdpSocket::bind("127.0.0.1:1337").expect("control socket 127.0.0.1:1337");
     ctl.set_read_timeout(Some(Duration::from_millis(200))).ok();
     let (mut genuine, mut forged) = (0u64, 0u64);
+    let mut spliced = 0u64;
     for _run in 0..runs {
         let server = Server::builder().udp().build();
         let client = Client::builder().build();
@@ -235,6 +257,27 @@ pub fn control(args: &[String]) -> Value {
             }));
             out.emit(match r { Ok(v) => v, Err(e) => json!({"ev": "panic", "what": "secret control", "msg": panic_msg(e)}) });
         };
+        // splice: the server is asked about ids that differ from the live one in a single byte; each answer
+        // (UnknownPathSecret for the other id, genuinely signed) is re-labelled with the live id and offered to the client
+        {
+            let live = draw(&mut out).creds;
+            let live_id: [u8; 16] = live.id.as_ref().try_into().unwrap();
+            for b in 0..16 {
+                let mut other = live_id;
+                other[b] ^= [0x01u8, 0x80, 0xff][rng.random_range(0..3)];
+                let oc = Credentials { id: credentials::Id::from(other), key_id: live.key_id };
+                let mut answer = Vec::new();
+                let _ = server.map().open_once(&oc, None, &mut answer);
+                for d in recv_all(&ctl) { if answer.is_empty() { answer = d; } }
+                if let Some(pos) = answer.windows(16).position(|w| w == other) {
+                    answer[pos..pos + 16].copy_from_slice(&live_id);
+                    apply(&mut out, &answer, false);
+                    forged += 1;
+                    spliced += 1;
+                }
+            }
+            observe(&mut out);
+        }
         for (_k, bytes) in &packets {
             for i in 0..bytes.len() {
                 let mut m = bytes.clone();
@@ -263,5 +306,5 @@ pub fn control(args: &[String]) -> Value {
         }
     }
     let n = out.finish();
-    json!({"events": n, "runs": runs, "genuine_control_packets": genuine, "forged_control_packets": forged})
+    json!({"events": n, "runs": runs, "genuine_control_packets": genuine, "forged_control_packets": forged, "spliced_answers": spliced})
 }
